@@ -135,7 +135,7 @@ func run(c *vf.Ctx) {
 	c.Assume("apply order is what SQLite's AUTOINCREMENT key records; acceptance order on one node is the order of the sequence_number values that node returned")
 	c.Assume("a request answered 200 or 408 (queue wait timeout) was accepted; any other status was refused before the queue; a transport error is an unknown outcome and is not required to appear")
 	c.Assume("duplicates (at-least-once) are tolerated only when the process counted a queue retry or an inter-node client re-send (the latter is the known C02 finding duplicate-apply:forward-resend-after-lost-response); order is judged on first occurrences")
-	n := c.N(4, 60)
+	n := c.N(4, 48)
 	tmp := vf.TempDir("c23")
 	defer os.RemoveAll(tmp)
 	outs := make([]histOut, n)
@@ -202,7 +202,7 @@ func run(c *vf.Ctx) {
 			}
 		}
 	}
-	c.Require(int64(n*3/4), c.N(2, 20))
+	c.Require(int64(n*3/4), c.N(2, 16))
 }
 
 func first(s []string, n int) []string {
@@ -456,8 +456,14 @@ func runHistory(c *vf.Ctx, caseNo int, dir string) (h histOut, cl *hcluster.Clus
 	h.Spec = cs
 	cl = hcluster.New(dir)
 	cl.HTTP.Timeout = 75 * time.Second
+	// wider raft timeouts under the race detector (5-10x slower), so that the
+	// cluster can keep a leader between the injected faults on a loaded machine
+	hb := 500 * time.Millisecond
+	if cs.Race {
+		hb = 1200 * time.Millisecond
+	}
 	opt := func(id string) hcluster.Options {
-		return hcluster.Options{ID: id, HeartbeatTimeout: 400 * time.Millisecond, ElectionTimeout: 400 * time.Millisecond, LeaderLease: 300 * time.Millisecond, NoSnapshotOnClose: true,
+		return hcluster.Options{ID: id, HeartbeatTimeout: hb, ElectionTimeout: hb, LeaderLease: hb * 3 / 4, NoSnapshotOnClose: true,
 			QueueBatchSz: cs.BatchSz, QueueTimeout: time.Duration(cs.QTimeout) * time.Millisecond, QueueCap: cs.QCap}
 	}
 	for i := 1; i <= cs.Nodes; i++ {
@@ -472,9 +478,23 @@ func runHistory(c *vf.Ctx, caseNo int, dir string) (h histOut, cl *hcluster.Clus
 		return
 	}
 	schema := []any{"CREATE TABLE q (id INTEGER PRIMARY KEY AUTOINCREMENT, c INTEGER NOT NULL, n INTEGER NOT NULL, i INTEGER NOT NULL)", "CREATE INDEX qcn ON q(c, n)"}
-	if rr := cl.PostJSON(l, "/db/execute?transaction", schema); rr.Err != nil || rr.Status != 200 {
-		h.SetupErr = fmt.Sprintf("schema: %v %d %s", rr.Err, rr.Status, rr.Body)
-		return
+	for try := 0; ; try++ {
+		rr := cl.PostJSON(l, "/db/execute?transaction", schema)
+		if a, err := rr.Parse(); err == nil && rr.Status == 200 && a.Error == "" && len(a.Results) == 2 && a.Results[0].Error == "" && a.Results[1].Error == "" {
+			break
+		}
+		// "table q already exists" after an unknown outcome also means the schema is there
+		if strings.Contains(string(rr.Body), "already exists") {
+			break
+		}
+		if try == 20 {
+			h.SetupErr = fmt.Sprintf("schema: %v %d %s", rr.Err, rr.Status, rr.Body)
+			return
+		}
+		time.Sleep(500 * time.Millisecond)
+		if nl := cl.WaitLeader(60 * time.Second); nl != nil {
+			l = nl
+		}
 	}
 	cl.WaitConverged(30 * time.Second)
 	nodes := cl.Live()
